@@ -646,6 +646,16 @@ def gen_ranges(rng, nlines, count):
     return out
 
 
+def det_ranges(toks, nlines):
+    """Ranges derived from the full answer, asked for every file: the line of the first token alone, from the middle
+    token's line to the last token's line (the tokens before it are filtered out: the delta encoding must restart from
+    the first emitted token), and an inverted range."""
+    if not toks:
+        return [[0, 0, nlines, 0]]
+    l0, lm, ll = toks[0][0], toks[len(toks) // 2][0], toks[-1][0]
+    return [[l0, 0, l0, 0], [lm, 5, ll, 0], [ll, 0, l0, 0] if ll > l0 else [l0 + 1, 0, l0, 0]]
+
+
 # ----------------------------------------------------------------------------------------------
 # sessions
 # ----------------------------------------------------------------------------------------------
@@ -848,9 +858,8 @@ def run_session(spec, tools, res, stats, sess_rng):
                     text = ptext
                 lines = split_lines(text)
                 key = "%d:%s" % (si, f)
-                ranges = (spec.get("ranges") or {}).get(key)
-                if ranges is None:
-                    ranges = gen_ranges(sess_rng, len(lines), nranges)
+                override = (spec.get("ranges") or {}).get(key)
+                ranges = list(override) if override is not None else []    # filled in after the full answer
                 td = {"textDocument": {"uri": L.uri(p)}}
 
                 report = make_report(si, f, text, ranges)
@@ -881,6 +890,8 @@ def run_session(spec, tools, res, stats, sess_rng):
                 if toks is None:
                     report("semantic token array length is not a multiple of 5", {"data_len": len(data)})
                     continue
+                if override is None:
+                    ranges.extend(det_ranges(toks, len(lines)) + gen_ranges(sess_rng, len(lines), nranges))
                 probs = oracle_tokens(toks, lines, legend)
                 if probs:
                     report("semanticTokens/full is not a well-formed encoding: " + probs[0],
@@ -1107,23 +1118,30 @@ def corpus_sessions():
         for st in c.get("steps", []):
             steps.append({"disk": {k: (None if v is None else {"text": v}) for k, v in (st.get("disk") or {}).items()},
                           "toml": st.get("toml"), "notify": st.get("notify"), "edit": None, "query": st["query"]})
-        out.append({"name": "corpus_" + c["name"], "toml": c["toml"], "files": files, "steps": steps, "nranges": 12,
+        out.append({"name": "corpus_" + c["name"], "toml": c["toml"], "files": files, "steps": steps, "nranges": 5,
                     "hier": c.get("hier", True), "fresh_compare": c.get("fresh_compare", False)})
     return out
 
 
-def session_libs(rng, n_edit):
-    """Generated project next to the bundled libraries; all bundled files are queried as they are."""
-    files = gen_project(rng, "g0", wild=False)
+def session_libs(rng, n_edit, n_lib_files=None, nranges=10):
+    """Generated project(s) next to the bundled libraries; bundled files are queried as they are: all of them, or
+    (quick tier) a seed-dependent sample that always contains three of the six largest files."""
+    quick = n_lib_files is not None
+    files = {} if quick else gen_project(rng, "g0", wild=False)
     files.update(gen_project(rng, "w1", wild=True))
     g0 = sorted(k for k in files if k.endswith("_g0.vhd"))
     w1 = sorted(k for k in files if k.endswith("_w1.vhd"))
     two = {"text": TEMPLATES["tb"].replace("work.ctx@", "ieee.ieee_std_context").replace("use work.pkg@.all; use work.ipkg@.all;", "")
            .replace("@", "_two")}
     files["shared.vhd"] = two
-    toml = "[libraries]\nlg.files = [%s]\nlw.files = [%s, 'shared.vhd']\nlx.files = ['shared.vhd']\n" % (
-        ", ".join("'%s'" % f for f in g0), ", ".join("'%s'" % f for f in w1))
-    steps = [{"edit": None, "query": all_library_files() + sorted(files)}]
+    toml = "[libraries]\n%slw.files = [%s, 'shared.vhd']\nlx.files = ['shared.vhd']\n" % (
+        ("lg.files = [%s]\n" % ", ".join("'%s'" % f for f in g0)) if g0 else "", ", ".join("'%s'" % f for f in w1))
+    libfiles = all_library_files()
+    if quick:
+        by_size = sorted(libfiles, key=lambda p: -os.path.getsize(p))
+        big = rng.sample(by_size[:6], 3)
+        libfiles = sorted(big + rng.sample(by_size[6:], max(0, n_lib_files - 3)))
+    steps = [{"edit": None, "query": libfiles + sorted(files)}]
     steps.append({"edit": {"file": "stray.vhd", "spec": {"text": TEMPLATES["gen"].replace("@", "_s").split("context")[0]}},
                   "query": ["stray.vhd", "nowhere.vhd"]})
     names = sorted(files)
@@ -1133,7 +1151,7 @@ def session_libs(rng, n_edit):
         ops = random_ops(rng, base)
         mate = rng.choice(names)
         steps.append({"edit": {"file": f, "spec": {"text": apply_ops(base, ops)}}, "query": [f, mate]})
-    return {"name": "libs", "toml": toml, "files": files, "steps": steps, "nranges": 10}
+    return {"name": "libs", "toml": toml, "files": files, "steps": steps, "nranges": nranges}
 
 
 def session_mutants(rng, name, n_libs, n_edit, nranges=10, hier=True):
@@ -1166,7 +1184,7 @@ def session_mutants(rng, name, n_libs, n_edit, nranges=10, hier=True):
     return {"name": name, "toml": "\n".join(toml) + "\n", "files": files, "steps": steps, "nranges": nranges, "hier": hier}
 
 
-def session_generated(rng, name, n_proj, n_edit, hier=True):
+def session_generated(rng, name, n_proj, n_edit, hier=True, nranges=10):
     """Several generated projects with wild layout (CRLF, tabs), each file also mutated by live edits."""
     files = {}
     toml = ["[libraries]"]
@@ -1181,7 +1199,7 @@ def session_generated(rng, name, n_proj, n_edit, hier=True):
         base = spec_text(files[f])
         ops = random_ops(rng, base)
         steps.append({"edit": {"file": f, "spec": {"text": apply_ops(base, ops)}}, "query": [f, rng.choice(names)]})
-    return {"name": name, "toml": "\n".join(toml) + "\n", "files": files, "steps": steps, "nranges": 10, "hier": hier}
+    return {"name": name, "toml": "\n".join(toml) + "\n", "files": files, "steps": steps, "nranges": nranges, "hier": hier}
 
 
 def session_reload(rng, name, n_steps):
@@ -1279,6 +1297,62 @@ def coq_cross_check(res, sample):
 
 
 # ----------------------------------------------------------------------------------------------
+# sessions run in worker processes; what they find is merged into the Result in submission order
+# ----------------------------------------------------------------------------------------------
+class Collector:
+    """Stands in for vlib.common.Result inside a worker."""
+    def __init__(self):
+        self.violations = []
+        self.evaluations = 0
+        self.nontrivial = set()
+
+    def violation(self, what, replay_obj, no_failing_input=False):
+        self.violations.append((what, replay_obj, no_failing_input))
+
+    def count_case(self, canonical, nontrivial):
+        self.evaluations += 1
+        if nontrivial:
+            self.nontrivial.add(hashlib.sha1(canonical.encode("utf-8", "replace")).digest()[:10])
+
+
+def new_stats():
+    return {"files": 0, "tokens": 0, "ranges": 0, "symbols": 0, "edits": 0, "absent": 0, "problems": 0, "kinds": {}, "range_kinds": {},
+            "model_compared": 0, "spec_evaluated": 0, "docsym_units": 0, "model_not_nested": 0, "hier_ents": 0,
+            "hier_hyp_failures": 0, "files_with_duplicate_positions": 0, "files_with_multiline_positions": 0,
+            "coq_sample": [], "samples": [], "sessions": [],
+            "analysis_panics_outside_c16": [], "server_deaths_outside_c16": [],
+            "reloads": 0, "fresh_compared": 0, "reload_text_differs_from_disk": 0}
+
+
+def merge_stats(into, st):
+    for k, v in st.items():
+        if isinstance(v, (int, float)) and not isinstance(v, bool):
+            into[k] = into.get(k, 0) + v
+        elif isinstance(v, dict):
+            for kk, vv in v.items():
+                into[k][kk] = into[k].get(kk, 0) + vv
+        elif isinstance(v, list) and k != "legend":
+            into[k].extend(v)
+        else:
+            into[k] = v
+
+
+def session_worker(job):
+    spec, tools, tag, sd = job
+    col = Collector()
+    st = new_stats()
+    rng = random.Random("%s/%s/%d" % (PROP, tag, sd))
+    t0 = time.time()
+    try:
+        run_session(spec, Tools(*tools), col, st, rng)
+    except Exception as ex:          # a bug of the check itself must not pass silently
+        import traceback
+        col.violation("check C16 failed internally in session %s: %r" % (spec["name"], ex),
+                      {"kind": "harness", "log": traceback.format_exc()[-3000:]}, True)
+    st["sessions"].append({"name": spec["name"], "steps": len(spec["steps"]), "wall_s": round(time.time() - t0, 1)})
+    return col.violations, col.evaluations, col.nontrivial, st
+
+
 def main(tier, replay=None):
     res = Result(PROP, tier, level="proof")
     d = rundir(PROP)
@@ -1295,20 +1369,13 @@ def main(tier, replay=None):
     if not ok:
         res.violation("vhdl_ls build failed", {"kind": "build", "log": log[-3000:]}, no_failing_input=True)
         return res.finish()
-    tools = Tools(hbin, mbin, lsbin)
-    stats = {"files": 0, "tokens": 0, "ranges": 0, "symbols": 0, "edits": 0, "absent": 0, "problems": 0, "kinds": {}, "range_kinds": {},
-             "model_compared": 0, "spec_evaluated": 0, "docsym_units": 0, "model_not_nested": 0, "hier_ents": 0,
-             "hier_hyp_failures": 0, "files_with_duplicate_positions": 0, "files_with_multiline_positions": 0,
-             "coq_sample": [], "samples": [], "sessions": [],
-             "analysis_panics_outside_c16": [], "server_deaths_outside_c16": [],
-             "reloads": 0, "fresh_compared": 0, "reload_text_differs_from_disk": 0}
+    tools = (hbin, mbin, lsbin)
+    stats = new_stats()
     sd = seed()
+    jobs = []
 
     def go(spec, tag):
-        rng = random.Random("%s/%s/%d" % (PROP, tag, sd))
-        t0 = time.time()
-        run_session(spec, tools, res, stats, rng)
-        stats["sessions"].append({"name": spec["name"], "steps": len(spec["steps"]), "wall_s": round(time.time() - t0, 1)})
+        jobs.append((spec, tools, tag, sd))
 
     if replay:
         rp = json.load(open(replay))
@@ -1320,20 +1387,40 @@ def main(tier, replay=None):
         spec["name"] = "replay"
         go(spec, "replay")
     else:
-        for spec in corpus_sessions():
-            go(spec, spec["name"])
         thorough = tier == "thorough"
         rng = random.Random("%s/gen/%d" % (PROP, sd))
-        go(session_libs(rng, 40 if thorough else 10), "libs")
-        go(session_generated(rng, "generated", 6 if thorough else 2, 150 if thorough else 20), "generated")
-        go(session_generated(rng, "generated_flat", 1, 5, hier=False), "generated_flat")
-        go(session_reload(rng, "reload", 40 if thorough else 10), "reload")
-        go(session_reload_disk(rng, "reload_disk"), "reload_disk")
+        # the longest sessions are submitted first; the corpus workspaces always run
         if thorough:
             for k in range(8):
-                go(session_mutants(rng, "mutants%d" % k, 40, 80, nranges=12), "mutants%d" % k)
+                go(session_mutants(rng, "mutants%d" % k, 40, 80, nranges=9), "mutants%d" % k)
+            go(session_libs(rng, 40, nranges=9), "libs")
+            go(session_generated(rng, "generated", 6, 150, nranges=9), "generated")
+            go(session_reload(rng, "reload", 40), "reload")
         else:
-            go(session_mutants(rng, "mutants", 30, 20), "mutants")
+            go(session_libs(rng, 3, n_lib_files=10, nranges=1), "libs")
+            go(session_reload(rng, "reload", 4), "reload")
+            for k in range(2):
+                go(session_mutants(rng, "mutants%d" % k, 4, 3, nranges=1), "mutants%d" % k)
+            go(session_generated(rng, "generated", 1, 6, nranges=1), "generated")
+        go(session_reload_disk(rng, "reload_disk"), "reload_disk")
+        go(session_generated(rng, "generated_flat", 1, 5 if thorough else 2, hier=False, nranges=1), "generated_flat")
+        for spec in corpus_sessions():
+            go(spec, spec["name"])
+    import concurrent.futures
+    with concurrent.futures.ProcessPoolExecutor(max_workers=min(8, max(1, len(jobs)))) as ex:
+        results = list(ex.map(session_worker, jobs))
+    # corpus findings first in the report
+    order = sorted(range(len(jobs)), key=lambda i: (not jobs[i][0]["name"].startswith("corpus_"), i))
+    for i in order:
+        viols, evs, nontriv, st = results[i]
+        for what, obj, nf in viols:
+            if len(res.violations) < 40:
+                res.violation(what, obj, no_failing_input=nf)
+        res.evaluations += evs
+        res.nontrivial |= nontriv
+        merge_stats(stats, st)
+    stats["coq_sample"] = stats["coq_sample"][:24]
+    stats["samples"] = stats["samples"][:4]
     coq_cross_check(res, stats.pop("coq_sample"))
     for s in stats.pop("samples"):
         res.add_sample(s)
@@ -1349,8 +1436,11 @@ def main(tier, replay=None):
         "endings, shift) and further mutations sent by didChange; (reload) vhdl_ls.toml rewritten (file moved to another library, "
         "mapped twice, unmapped, restored) + didChangeWatchedFiles, files created/deleted + didCreateFiles/didDeleteFiles, every file "
         "queried before and after, last answers compared with a fresh server; (reload_disk) file contents shortened on disk + mapping "
-        "change + reload, oracle against the text the Project holds (harness dump). Per file: full request, 10 (thorough 12) line ranges (single line, empty, "
-        "inverted, beyond EOF, up to 2^32-1, whole file, random spans), documentSymbol. /repo/example_project contains no VHDL files "
+        "change + reload, oracle against the text the Project holds (harness dump). Quick tier: the corpus, a seed-dependent sample of 10 "
+        "bundled files (three of the six largest always), one generated project, 8 mutated groups, fewer edits/reloads; thorough: "
+        "everything. Sessions run in 8 worker processes. Per file: full request; 3 line ranges derived from the answer (line of the "
+        "first token; middle token's line to last token's line; inverted) + 1 (corpus 5, thorough 9) random ranges (single line, empty, "
+        "inverted, beyond EOF, up to 2^32-1, whole file, random spans); documentSymbol. /repo/example_project contains no VHDL files "
         "(empty submodules) and is therefore not an input. non-trivial = full answer with >= 1 token; range answer that is a proper "
         "non-empty part of the full answer or an inverted/beyond-EOF range on a non-empty file; symbol tree with > 1 symbol; distinct "
         "by hash of (file text, request)" % len(all_library_files()))
